@@ -173,5 +173,8 @@ fn now_impl(_this: CelValue, args: Vec<CelValue>) -> CelValue {
         return CelValue::from_err(CelError::argument("now() expects no arguments"));
     }
 
-    CelValue::from_timestamp(chrono::Utc::now())
+    match crate::utils::clock::now() {
+        Ok(now) => CelValue::from_timestamp(now),
+        Err(err) => err.into(),
+    }
 }
